@@ -425,6 +425,33 @@ def check(P, tier, seed):
 
 def replay(P, path):
     n = int(P[1:])
+    import vfextra
+    base = os.path.basename(path)
+    if path.endswith(".seq"):
+        # container harness sequence: <what>-....seq, first byte = capacity
+        what = base.split("-")[0]
+        cap = open(path, "rb").read(1)[0]
+        ok, bins, log = vfextra.container_binaries("shipped", "gcc", vfextra.FULL_SHARDS)
+        if not ok:
+            print("container harness does not build:", log)
+            return 2
+        for lo, hi, exe in bins:
+            if lo <= cap <= hi:
+                rc, out = vc.run([exe, "replay", what, path], timeout=120)
+                print(out)
+                return rc
+        return 2
+    if base.startswith("walk-") and path.endswith(".txt"):
+        # sizes harness walk: walk-<N>-<head>-<variant>.txt
+        parts = base[:-4].split("-")
+        key = (int(parts[1]), int(parts[2]), parts[3])
+        ok, bins, log, out = vfextra.sizes_binaries([key])
+        if not ok:
+            print("sizes harness does not build:", log)
+            return 2
+        rc, out = vc.run([bins[key], "walk", path], timeout=600)
+        print(out)
+        return 1 if rc != 0 else 0
     if path.endswith(".log") or not path.endswith(".case"):
         print(open(path).read()[-5000:])
         return 1
